@@ -55,6 +55,7 @@ class Built:
         self.gate = None          # optional async callable(coord, path) awaited by every explicit resolver
         self.type_calls = []
         self.scribble = False     # resolvers modify their own `args` in place after use (C15)
+        self.share_values = False # constant resolvers hand out the same object on every call (C15 / C16)
 
 def path_list(info):
     return info.path.as_list() if hasattr(info.path, "as_list") else list(info.path or [])
@@ -103,6 +104,12 @@ def make_resolver(built, coord, spec):
                 return f"seen{ctx['n_seen']}"
             return "seen0"
         if kind == "const":
+            if built.share_values:
+                # application data: ONE object handed to every request that asks (the engine reads it, never changes it)
+                memo = built.__dict__.setdefault("_shared_vals", {})
+                if coord not in memo:
+                    memo[coord] = dec(spec["v"]); _alias_equal_items(memo[coord])
+                return memo[coord]
             val = dec(spec["v"])
             _alias_equal_items(val)
             return val
